@@ -32,13 +32,13 @@ CLAIMED = {
              "findings were repaired in /repo and are regression inputs now.",
         ref="DESIGN.md 5/C03", tech="Rocq proof (parser half: all token layouts and streams; scanner half: flow text sub-language, text -> events) + spec-derived renderer oracle on implementation + differential correspondence; block-structure scanner half partial"),
     "C05": dict(
-        text="15 theorems against an independent specification of YAML 1.2.2 section 8.1 (Spec/BlockScalar.v: line model, content indentation, classification, block_value, renderer, decidable side conditions case_ok; imports nothing from the model; the spec's examples 8.2-8.13 are Examples). For the scanner model over the string input and the three line-break styles LF / CR LF / CR: content-line reader (buffered and raw path), indentation skipping (narrow and wide path), first-line auto-detection; scan_block_scalar returns block_value for literal and folded style, the three chompings, explicit or auto-detected indentation incl. 0, any header tail, ALL line lists with content followed by a less-indented line, end of input, or at indentation 0 a document marker '...' or '---'; every end-of-input shape (right after the last content line, inside a last line of fewer / exactly / more spaces than the indentation); content-less scalars; C05_case_partial: every case of the specification outside one class, from any scanner state at the indicator. The full statement C05_full stays visible and is machine-REFUTED by the one remaining recorded class (a top-level scalar whose first content line starts with a tab at column 0). Not theorems: contexts in front of the indicator, buffered back-ends (C10 transfers). Oracle/tie: 30k (thorough 600k) generated cases (style x chomping x indentation x context x header tail x break style x end shape x line content) - every scalar must equal the extracted spec's value on str, iterator and capacity-8 inputs; directed regression list for the three repaired classes (001a921, 42046c7).",
+        text="19 theorems against an independent specification of YAML 1.2.2 section 8.1 (Spec/BlockScalar.v: line model, content indentation, classification, block_value, renderer, decidable side conditions case_ok; imports nothing from the model; the spec's examples 8.2-8.13 are Examples). For the scanner model over the string input and the three line-break styles LF / CR LF / CR: content-line reader (buffered and raw path), indentation skipping (narrow and wide path), first-line auto-detection; scan_block_scalar returns block_value for literal and folded style, the three chompings, explicit or auto-detected indentation incl. 0, any header tail, ALL line lists with content followed by a less-indented line, end of input, or at indentation 0 a document marker '...' or '---'; every end-of-input shape (right after the last content line, inside a last line of fewer / exactly / more spaces than the indentation); content-less scalars; C05_case_partial: every case of the specification outside one class, from any scanner state at the indicator. The full statement C05_full stays visible and is machine-REFUTED by the one remaining recorded class (a top-level scalar whose first content line starts with a tab at column 0). Not theorems: contexts in front of the indicator, buffered back-ends (C10 transfers). Oracle/tie: 30k (thorough 600k) generated cases (style x chomping x indentation x context x header tail x break style x end shape x line content) - every scalar must equal the extracted spec's value on str, iterator and capacity-8 inputs; directed regression list for the three repaired classes (001a921, 42046c7). TEXT LEVEL (round 3): for every case of the specification whose scalar ends the input, in three document positions (the whole document, the value of a one-pair top-level mapping, the entry of a one-entry top-level sequence), the WHOLE model pipeline run_str on the specification's own rendering emits exactly the expected events with the specified value (C05_document_top/_value/_entry, C05_document_tokens).",
         ref="DESIGN.md 5/C05", tech='Rocq proof (scan_block_scalar = independent block_value spec, all cases from the indicator on, LF/CRLF/CR, string input) + extracted spec as oracle on implementation + differential correspondence'),
     "C06": dict(
         text=open(os.path.join(V, "design", "C06_manifest.txt")).read().strip(),
         ref="DESIGN.md 5/C06", tech="Rocq proof (bracket-balance invariant over all token streams; per-site rejection theorems; refutation of the full statement) + damage-operator rejection oracle on implementation + differential correspondence"),
     "C04": dict(
-        text="19 theorems against an independent specification (Spec/FlowFold.v: escapes, break_text/fold_lines, presentations of plain, single- and double-quoted scalars with well-formedness, rendering and denoted text; imports nothing from the model). The GENERATED escape table of scanner.rs agrees pair by pair, in both directions, with the specification's table (an edited match arm breaks the proof on the next run); hex digits and read_hex for every digit list; \\x/\\u/\\U of every Unicode scalar value. C04_full_proved: for the scanner model over the string input, EVERY presentation the productions allow - any number of lines, folded breaks with trailing padding, empty lines, tabs after the required indentation, breaks written LF / CR / CR LF, escaped breaks, escapes, doubled quotes, block and flow context - followed by anything that may end the scalar, from any scanner state with a smaller indentation, is scanned to exactly the specified text (one break -> space, k+1 breaks -> k line feeds, blanks around a break dropped, an escaped break joins without a space): scan_plain_scalar (C04_plain_full_proved) and scan_flow_scalar (C04_quoted_full_proved). Not theorems: the buffered input (C10 transfers), tokens -> events (C02/C03/C07). Tie/oracle: target strings x independent presenters (escapes, folds, padding, LF/CR/CRLF) x 18 syntactic contexts on two back-ends, model pipeline vs implementation; regression stream for the two repaired findings (263b504, 0b5f0e0). No open known finding.",
+        text="23 theorems against an independent specification (Spec/FlowFold.v: escapes, break_text/fold_lines, presentations of plain, single- and double-quoted scalars with well-formedness, rendering and denoted text; imports nothing from the model). The GENERATED escape table of scanner.rs agrees pair by pair, in both directions, with the specification's table (an edited match arm breaks the proof on the next run); hex digits and read_hex for every digit list; \\x/\\u/\\U of every Unicode scalar value. C04_full_proved: for the scanner model over the string input, EVERY presentation the productions allow - any number of lines, folded breaks with trailing padding, empty lines, tabs after the required indentation, breaks written LF / CR / CR LF, escaped breaks, escapes, doubled quotes, block and flow context - followed by anything that may end the scalar, from any scanner state with a smaller indentation, is scanned to exactly the specified text (one break -> space, k+1 breaks -> k line feeds, blanks around a break dropped, an escaped break joins without a space): scan_plain_scalar (C04_plain_full_proved) and scan_flow_scalar (C04_quoted_full_proved). Not theorems: the buffered input (C10 transfers), tokens -> events (C02/C03/C07). Tie/oracle: target strings x independent presenters (escapes, folds, padding, LF/CR/CRLF) x 18 syntactic contexts on two back-ends, model pipeline vs implementation; regression stream for the two repaired findings (263b504, 0b5f0e0). No open known finding. TEXT LEVEL (round 3): single- and double-quoted scalars of every allowed presentation, followed by blanks and line feeds only, in the same three document positions come out of the WHOLE model pipeline as the scalar event with the denoted text (C04_quoted_document_top/_value/_entry).",
         ref="DESIGN.md 5/C04", tech='Rocq proof (escape table agreement via generated table; hex decoding; scan_plain_scalar and scan_flow_scalar return the specified text for ALL allowed presentations) + presenter-based round-trip oracle + differential correspondence'),
     "C11": dict(
         text="27 theorems (partial by nature: bytes of stack are not expressible in a model). HEADLINE, for EVERY text: the events of the whole model pipeline nest at most 2*(BLOCK_NESTING_MAX + 3*FLOW_LEVEL_MAX + 1) = 2042 deep - a CONSTANT built from the limits the translator reads out of scanner.rs (C11_text_nesting_bounded, also over the buffered back-end of any capacity); hence the recursion of Parser::load is bounded by 1 + that constant for every text and every accepted alias-free text loads to documents no deeper than it (C11_push_loader_recursion_bounded, C11_loaded_tree_walk_bounded). Underneath: the pull parser's continuation stack tracks the open collections for EVERY token stream (heap, not call stack); recursion depth of the push loader and of tree traversals = nesting depth; open collections <= 2 x token nesting for every token stream; scanner invariant J over every function of the scanner model: unmatched collection-start tokens (block, '[' '{', synthetic FlowMappingStart) delivered or queued <= block entries of the indent stack + flow_level + implicit pairs, each bounded by its limit (C11_scanner_token_nesting_bounded: token nesting <= 1021 for every input, any back-end, any fuel); roll_indent at the block limit and increase_flow_level at the flow limit are errors. With aliases the loaded TREE can be deeper than the events nest (C11_alias_chain_family by induction, C11_tree_depth_not_bounded_by_nesting_refuted); what holds is depth <= number of collection-start events. Dynamic part: depth sweep 1..10^6 x 11 shapes x 6 APIs, each scenario in a child process on an 8 MiB stack, debug and release; the extracted oracle checks token nesting <= 1021 and event nesting <= 2042 on the implementation's real output. Fixed: unbounded block nesting (99c201b), flow-limit bypass by bare ':' (597a354), mismatched closer (88700d3), '[ ? ]' bypass (c5ad60c): every such scenario is an error value now, an abort is a VIOLATION. Known finding (thorough tier): the alias chain '- &a0 [x] / - &a1 [*a0] / ...' (event nesting 2) loads to a tree n deep; Yaml::load_from_str + drop aborts from ~6500 (debug) / ~7700 (release) lines on, needing 4-5.6 GB of memory (quadratic).",
@@ -73,7 +73,7 @@ CLAIMED = {
         text=open(os.path.join(V, "design", "C18_manifest.txt")).read().strip(),
         ref="DESIGN.md 5/C18", tech="Rocq proof (executable models of the UTF-8 and UTF-16 decoders of encoding_rs meet the loop contract; decode = independent one-shot specification for all four traps and every byte string; termination; round trips) + extracted decoder models and specification vs the real decode incl. every trap-callback invocation + Python codecs"),
     "C15": dict(
-        text="28 theorems. PARSER, all token lists: every DocumentEnd step empties the anchor table and (unless keep_tags) the tag table; renumbering (raising the anchor counter by d shifts every id by d); tail simulation; C15_composition: if 'A' and 'B' are each accepted token streams then A DocumentEnd B is accepted with events(A) followed by events(B), B's anchor ids shifted by the number of anchored nodes of A - also for parse_all, for any number of streams, and closed under gluing. SCANNER, generic over the input, all reachable states: every character-level scanner is a frame (leaves simple keys, flow level, implicit-mapping stack, queue alone); skeleton invariant (|simple keys| = flow level + 1, indent chain, length sc_ifms = flow level) preserved by fetch_next_token, hence between documents (flow level 0) there is no flow state left; after a document marker the skeleton is the post-StreamStart configuration. SCANNER, POSITION SHIFT (relational proof over every scanner function, string input): two runs on the same remaining text whose states differ only by a constant offset of index, line and token count deliver the same tokens and the same error, shifted (fetch_next_token, fetch_more_tokens, next_token, scan_all, all fuels); TAIL INDEPENDENCE: from the state behind a document marker line the scanner delivers what it delivers on the rest of the text alone, minus StreamStart, shifted by where it stands (also stated for a text X and the k-th delivered token); the parser commutes with the shift; TEXT LEVEL: if A and B are each accepted and scanning A...B reaches the boundary having delivered tokens(A) minus StreamEnd and DocumentEnd (named hypothesis boundary_reached, discharged in the Examples, not in general), then run_str(A ++ '...' ++ B) is accepted with events(A) followed by events(B), anchor ids renumbered. Missing: boundary_reached in general (every scalar scanner ends at a marker line as at end of input), the '---' boundary, keep_tags = true composition. Tie/oracle: accepted streams of the C01 space concatenated 2-4 at a time with '...' lines must parse to the parts' events with anchor ids renumbered (two back-ends); regression streams of the repaired classes (4c68b1d, e9e1eb4, 3018bbd, ad74b3e); cross-document alias probes through iterator and loader. No open known finding.",
+        text="31 theorems. PARSER, all token lists: every DocumentEnd step empties the anchor table and (unless keep_tags) the tag table; renumbering (raising the anchor counter by d shifts every id by d); tail simulation; C15_composition: if 'A' and 'B' are each accepted token streams then A DocumentEnd B is accepted with events(A) followed by events(B), B's anchor ids shifted by the number of anchored nodes of A - also for parse_all, for any number of streams, and closed under gluing. SCANNER, generic over the input, all reachable states: every character-level scanner is a frame (leaves simple keys, flow level, implicit-mapping stack, queue alone); skeleton invariant (|simple keys| = flow level + 1, indent chain, length sc_ifms = flow level) preserved by fetch_next_token, hence between documents (flow level 0) there is no flow state left; after a document marker the skeleton is the post-StreamStart configuration. SCANNER, POSITION SHIFT (relational proof over every scanner function, string input): two runs on the same remaining text whose states differ only by a constant offset of index, line and token count deliver the same tokens and the same error, shifted (fetch_next_token, fetch_more_tokens, next_token, scan_all, all fuels); TAIL INDEPENDENCE: from the state behind a document marker line the scanner delivers what it delivers on the rest of the text alone, minus StreamStart, shifted by where it stands (also stated for a text X and the k-th delivered token); the parser commutes with the shift; TEXT LEVEL: if A and B are each accepted and scanning A...B reaches the boundary having delivered tokens(A) minus StreamEnd and DocumentEnd (hypothesis boundary_reached), then run_str(A ++ '...' ++ B) is accepted with events(A) followed by events(B), anchor ids renumbered; PREFIX STABILITY (second relational proof over every scanner function: the run on A at end of input vs the run on A ++ '...' ++ B): boundary_reached is PROVED for every A that ends with a line break, has no NUL, ends at flow level 0 and holds no empty block scalar running into the end of input (whose span start differs; text and style agree), hence C15_text_composition_total without the hypothesis. Missing: deriving 'flow level 0' from acceptance, the '---' boundary, keep_tags = true composition. Tie/oracle: accepted streams of the C01 space concatenated 2-4 at a time with '...' lines must parse to the parts' events with anchor ids renumbered (two back-ends); regression streams of the repaired classes (4c68b1d, e9e1eb4, 3018bbd, ad74b3e); cross-document alias probes through iterator and loader. No open known finding.",
         ref="DESIGN.md 5/C15", tech='Rocq proof (composition theorem on token streams; scanner skeleton invariant and marker reset for all reachable states; relational proof that the whole scanner commutes with a position shift, tail independence at a document boundary) + concatenation oracle on implementation + differential correspondence'),
     "C20": dict(
         text="16 theorems over a model of derive(Hash)/Eq, OrderedFloat, hash_str_as_yaml_string and the raw-entry lookups, for ALL nodes, "
